@@ -280,6 +280,12 @@ theorem connect_refines {b : B} {s : Spec.Broker.S} (h : R b s) (c : Nat) (req :
   rw [o2] at this
   exact this
 
+/-- the reference broker's reasons to refuse a first packet -/
+def reasons (f : First) (a : Bool) : List (Option Nat) :=
+  match f with
+  | .connect req => Spec.Broker.refusals req a
+  | _ => [none]
+
 /-- a first packet that is not an acceptable CONNECT (on a connection number not
 in use): nothing changes, and the answer is one of those the reference broker's
 list of reasons allows - a close without CONNACK where `none` is listed (always
@@ -288,7 +294,7 @@ theorem refusal_refines {b : B} (c : Nat) (f : First) (a : Bool)
     (hacc : Mqtt.Proofs.BrokerLife.accepts f a = false) (s : Spec.Broker.S) :
     (step b (.first c f a)).1 = b ∧ (Spec.Broker.step1 s (.first c f a)).1 = s ∧
     ∃ codes, (Spec.Broker.step1 s (.first c f a)).2 = [.refused c codes] ∧
-      (codes = match f with | .connect req => Spec.Broker.refusals req a | _ => [none]) ∧
+      codes = reasons f a ∧
       (((step b (.first c f a)).2 = [.closed c] ∧ none ∈ codes) ∨
        ∃ k, k ≠ 0 ∧ some k ∈ codes ∧ (step b (.first c f a)).2 = [.send c (.connack false k), .closed c]) := by
   cases f with
